@@ -433,7 +433,7 @@ func jobsFor(prop, tier string) []Job {
 		}
 		js = []Job{mk("c17-n3-ml2", params("N", 3, "ML", 2, "DEL", 1)), mk("c17-n2-ml3", params("N", 2, "ML", 3, "DEL", 1))}
 		if thorough {
-			js = append(js, mk("c17-n4-ml3", params("N", 4, "ML", 3, "DEL", 1)), mk("c17-n5-ml2-setonly", params("N", 5, "ML", 2, "DEL", 0)), mk("c17-n3-ml1", params("N", 3, "ML", 1, "DEL", 1)),
+			js = append(js, mk("c17-n3-ml3", params("N", 3, "ML", 3, "DEL", 1)), mk("c17-n4-ml2-setonly", params("N", 4, "ML", 2, "DEL", 0)), mk("c17-n3-ml1", params("N", 3, "ML", 1, "DEL", 1)),
 				mk("c17-n5-ml2-set-set-del-del-set", params("N", 5, "ML", 2, "OPSEQ", 11221)),
 				mk("c17-n4-ml2-set-del-set-set", params("N", 4, "ML", 2, "OPSEQ", 1211)))
 		}
